@@ -256,6 +256,18 @@ TrAttributes ==
             /\ Clause("C18.attributes.regenerate", \A i \in 1..Len(e.regen) : e.regen[i] = e.c)
             /\ Clause("C18.attributes.regenerate.member", e.same)
        ELSE OutOfDomain
+(* intents with more than 12 properties: tens of thousands of generating sets; judged without building the
+   sorted expectation: strictly increasing in shortlex order (hence no repeats) and exactly the generator set *)
+TrAttributesBig ==
+    /\ IsEv("attributes.big")
+    /\ IF K.ok
+       THEN /\ Touch("attributes")
+            /\ LET R == [i \in 1..Len(e.res) |-> ToSet(e.res[i])]
+               IN  /\ Clause("C18.attributes.big.order", \A i \in 1..(Len(R) - 1) : ShortLess(R[i], R[i + 1]))
+                   /\ Clause("C18.attributes.big.set", ToSet(R) = GeneratorsLit(KV, ToSet(e.c)))
+                   /\ Clause("C18.attributes.big.minimal", Len(e.res) = 0 \/ e.minimal = e.res[1] \/ ToSet(e.c) = BottomExtent(KV))
+       ELSE OutOfDomain
+
 TrMinimal ==
     /\ IsEv("minimal")
     /\ IF K.ok /\ ToSet(e.c) \in DOMAIN Lz.pos
@@ -364,7 +376,7 @@ TraceNext ==
     \/ TrJoinMeet("join") \/ TrJoinMeet("meet") \/ TrPred \/ TrPredIntents
     \/ TrTraverse("upset", TRUE) \/ TrTraverse("upset_union", TRUE)
     \/ TrTraverse("downset", FALSE) \/ TrTraverse("downset_union", FALSE)
-    \/ TrLatLabels \/ TrRelations \/ TrRelationsStr \/ TrAttributes \/ TrMinimal
+    \/ TrLatLabels \/ TrRelations \/ TrRelationsStr \/ TrAttributes \/ TrAttributesBig \/ TrMinimal
     \/ TrGraphviz \/ TrRel \/ TrCrash \/ TrDone
 TraceSpec == TraceInit /\ [][TraceNext]_vars
 =============================================================================
